@@ -50,9 +50,39 @@ class HoldProbe(aprobe.Probe):
         return []
 
 
+class Tap(_S):
+    """records the batch the source emits and passes it on unchanged (with whatever awaitables come back)"""
+
+    def __init__(self, upstream, log):
+        self.log = log
+        _S.__init__(self, upstream)
+
+    def update(self, x, who=None, metadata=None):
+        self.log.nd += 1
+        self.log.add("deliver", d=self.log.nd, x=[v.decode() if isinstance(v, bytes) else str(v) for v in x])
+        return self._emit(x, metadata=metadata)
+
+
+class MsgProbe(HoldProbe):
+    """the consumer behind source.flatten(): one delivery per message"""
+
+    def update(self, x, who=None, metadata=None):
+        log = self.log
+        log.nd += 1
+        d = log.nd
+        self._retain_refs(metadata or [])
+        log.add("msg_deliver", d=d, x=x.decode() if isinstance(x, bytes) else str(x))
+        if self.mode == "sync":
+            self._release_refs(metadata or [])
+            log.add("msg_done", d=d)
+            return []
+        log.pending[d] = (metadata or [], self)
+        return []
+
+
 def finish(log, d):
     md, probe = log.pending.pop(d)
-    log.add("cons_done", d=d)
+    log.add("msg_done" if isinstance(probe, MsgProbe) else "cons_done", d=d)
     probe._release_refs(md)
 
 
@@ -85,6 +115,8 @@ class Scenario:
                 offs = [int(v.split(":")[1]) for v in vals]
                 ok = bool(vals) and len(set(ps)) == 1 and offs == list(range(offs[0], offs[0] + len(offs)))
                 self._d[e["d"]] = (ps[0] if vals else -1, offs[0] if vals else -1, offs[-1] if vals else -1)
+                if self.cfg.get("shape") == "flatten":
+                    self.open_batches.append(self._d[e["d"]])
                 self.ev("EmitBatch", p=self._d[e["d"]][0], lo=self._d[e["d"]][1], hi=self._d[e["d"]][2], exact=ok)
             elif e["ev"] == "deliver_fail":
                 vals = e["x"]
@@ -92,6 +124,18 @@ class Scenario:
                 offs = [int(v.split(":")[1]) for v in vals]
                 self.failed_parts.add(ps[0] if vals else -1)
                 self.ev("FailBatch", p=ps[0] if vals else -1, lo=offs[0] if vals else -1, hi=offs[-1] if vals else -1)
+            elif e["ev"] == "msg_deliver":
+                p_, off = [int(v) for v in e["x"].split(":")]
+                self._d[e["d"]] = (p_, off, off)
+                self.ev("MsgDeliver", p=p_, off=off)
+            elif e["ev"] == "msg_done":
+                # a batch is processed when the last of its messages has been let go of by the consumer
+                p_, off, _ = self._d[e["d"]]
+                self.msgs_done.add((p_, off))
+                for (bp, lo, hi) in list(self.open_batches):
+                    if all((bp, o) in self.msgs_done for o in range(lo, hi + 1)):
+                        self.open_batches.remove((bp, lo, hi))
+                        self.ev("Process", p=bp, lo=lo, hi=hi)
             elif e["ev"] == "cons_done":
                 p, lo, hi = self._d[e["d"]]
                 self.ev("Process", p=p, lo=lo, hi=hi)
@@ -125,6 +169,8 @@ class Scenario:
             self._nlog = 0
             self._d = {}
             self.failed_parts = set()
+            self.msgs_done = set()
+            self.open_batches = []
             params = {"bootstrap.servers": "x", "group.id": "g1"}
             if not cfg["latest"]:
                 params["auto.offset.reset"] = "earliest"
@@ -132,7 +178,12 @@ class Scenario:
                                              refresh_partitions=cfg["refresh"], max_batch_size=cfg["maxbatch"],
                                              asynchronous=True, loop=IOLoop.current())
             self.src = node.upstreams[0]
-            self.probe = HoldProbe(node, self.log, mode=cfg.get("cons", "hold"))
+            if cfg.get("shape") == "flatten":
+                # source -> flatten -> consumer of single messages: the batch's reference travels with its *last* message
+                self.tap = Tap(node, self.log)
+                self.probe = MsgProbe(self.tap.flatten(), self.log, mode=cfg.get("cons", "hold"))
+            else:
+                self.probe = HoldProbe(node, self.log, mode=cfg.get("cons", "hold"))
             self.loop.do(node.start)
             self.alive = True
             self.prologue = False
@@ -242,6 +293,10 @@ def main():
                 cfg2 = dict(cfg, cons="sync")
                 for _ in range(per // 12):
                     runs.append(run(cfg2, random_schedule(cfg2, rng, rng.randint(8, 18))))
+                # source.flatten(): the consumer works on single messages
+                cfg4 = dict(cfg, shape="flatten")
+                for _ in range(per // 8):
+                    runs.append(run(cfg4, random_schedule(cfg4, rng, rng.randint(10, 26))))
                 # the pipeline refuses a batch now and then
                 for cons in ("hold", "sync"):
                     cfg3 = dict(cfg, cons=cons, faults=True)
